@@ -380,3 +380,68 @@ Print Assumptions C18_src_pattern3.
 Print Assumptions C18_src_expected_class.
 Print Assumptions C18_src_display_table.
 Print Assumptions C18_src_parse_msg.
+
+(* ------------------------------------------------------------------ tie of the constructor's reporting to the source
+   Structure.__init__ and commons.raise_errs_if_needed are translated to Gallina on every run (Gen/InitSrc.v).  In a
+   world where what setattr(self, n, v) raises is a function [oracle] of (n, v), the translation of today's source
+   reports exactly what [construct_u] - the model of the theorems above - says, for every class name and every list
+   of bound arguments: collect-all gathers EVERY TypeError / ValueError in order (one InvalidStructureErr whose
+   text is json.dumps of the "<Cls>."-prefixed texts, for every rendering [dumps]), any other class leaves the loop
+   as it is; fail-fast re-raises the first failure as the same class, "<Cls>."-prefixed. *)
+From TP Require Import Base.PyOpsInit Gen.InitSrc Struct.Instance Struct.InitModel Struct.InitReportsProofs.
+
+Theorem C18_src_init_collect_all :
+  forall (repr_str : pystr -> pystr) (dumps : list pystr -> pystr)
+         (oracle : pystr -> pyval -> option pyexc) (cls : pystr) (bound : kwargs),
+    msg_names bound = true ->
+    match construct_u dumps false cls (uargs repr_str dumps oracle bound) with
+    | Some t =>
+        exists (s : istate) (x : pyexc),
+          Structure__init (BH cls false) (OW repr_str dumps oracle bound) (PTuple []) (kw_dict bound) [] = (s, inr x) /\
+          exc_str (OW repr_str dumps oracle bound) x = x_raw t /\
+          match x_json t with
+          | Some msgs => x_cls x = InvalidStructureErr /\ x_raw t = dumps msgs
+          | None => catches te_ve x = false /\ (exists p : pystr * pyval, In p bound /\ oracle (fst p) (snd p) = Some x)
+          end
+    | None =>
+        exists s : istate,
+          Structure__init (BH cls false) (OW repr_str dumps oracle bound) (PTuple []) (kw_dict bound) [] = (s, inl tt)
+    end.
+Proof. exact generated_init_collect_all. Qed.
+
+Theorem C18_src_init_fail_fast :
+  forall (repr_str : pystr -> pystr) (dumps : list pystr -> pystr)
+         (oracle : pystr -> pyval -> option pyexc) (cls : pystr) (bound : kwargs),
+    msg_names bound = true -> ff_dom oracle bound = true ->
+    match construct_u dumps true cls (uargs repr_str dumps oracle bound) with
+    | Some t =>
+        exists (s : istate) (x y : pyexc),
+          Structure__init (BH cls true) (OW repr_str dumps oracle bound) (PTuple []) (kw_dict bound) [] = (s, inr x) /\
+          x_arg x = x_raw t /\ x_json t = None /\
+          x_cls x = x_cls y /\ (exists p : pystr * pyval, In p bound /\ oracle (fst p) (snd p) = Some y)
+    | None =>
+        exists s : istate,
+          Structure__init (BH cls true) (OW repr_str dumps oracle bound) (PTuple []) (kw_dict bound) [] = (s, inl tt)
+    end.
+Proof. exact generated_init_fail_fast_reports. Qed.
+
+(* non-vacuity: three bound arguments, the first and third rejected (ValueError, TypeError): both modes *)
+Definition ex_oracle (n : pystr) (v : pyval) : option pyexc :=
+  match v with
+  | PNum (NInt z) => if (z <? 0)%Z then Some (mk_exc ValueError (s2p "neg")) else None
+  | PStr _ => Some (mk_exc TypeError (s2p "str"))
+  | _ => None
+  end.
+Definition ex_bound : kwargs := [(s2p "a", PNum (NInt (-1)%Z)); (s2p "b", PNum (NInt 2%Z)); (s2p "c", PStr (s2p "x"))].
+
+Example C18_src_init_nonvacuous :
+  msg_names ex_bound = true /\ ff_dom ex_oracle ex_bound = true /\
+  snd (Structure__init (BH (s2p "Foo") false) (OW (fun x => x) (fun l => List.concat l) ex_oracle ex_bound) (PTuple []) (kw_dict ex_bound) []) =
+    inr (mk_exc InvalidStructureErr (s2p "Foo.negFoo.str")) /\
+  snd (Structure__init (BH (s2p "Foo") true) (OW (fun x => x) (fun l => List.concat l) ex_oracle ex_bound) (PTuple []) (kw_dict ex_bound) []) =
+    inr (mk_exc ValueError (s2p "Foo.neg")).
+Proof. repeat split; vm_compute; reflexivity. Qed.
+
+Print Assumptions C18_src_init_collect_all.
+Print Assumptions C18_src_init_fail_fast.
+Print Assumptions C18_src_init_nonvacuous.
